@@ -206,6 +206,11 @@ func (r *Run) dial(ctx context.Context) (net.Conn, error) {
 	m.greet()
 	if r.free != nil {
 		c.auto, c.run = true, r
+		if r.att != nil {
+			// everything the free-running cancel trigger needs, fixed at dial time: a
+			// reader that outlives its attempt must not look at the run's current one
+			c.freePlan, c.freeCancel, c.freeMode = r.att.Plan, r.cancel, r.free.cancelMode
+		}
 		if r.dialPlan == stopHandshakeFIN && r.att != nil {
 			cut := r.att.Plan.HandshakeCut
 			if cut < len(c.wire) {
